@@ -126,6 +126,46 @@ def rule_cpform(ctx: Ctx) -> List[Ob]:
     obs.append(ob("CPFORM", "remaining free variables move to x + t d along the path", f, st[0], ok and okm,
                   f"x_cp[{mask_l}] = ({v})[{mask_r}]" + ("" if ok else f"; {why}") + ("" if okm else "; masks differ / not `t >= t_cur`"),
                   construct="tail x_cp[t >= t_cur] = (x + t_old * d)[t >= t_cur]"))
+    # ---------------- (d) loop control: segment length, counter, last segment
+    tnext = sp.Symbol("t_next", real=True)
+    after = []
+    seen_try = False
+    trys = [s for s in lp.body if isinstance(s, ast.Try)]
+    for s in lp.body:
+        if isinstance(s, ast.Try):
+            seen_try = True
+            continue
+        if seen_try:
+            after.append(s)
+    K = Kernel(bindings={}, conds={}, maps={})
+    K.env.update({"t_cur": Sc(tnext), "t_old": Sc(tcur), "nseg": Sc(S("nseg")), "delta_t": Sc(dt)})
+    K.run([s for s in after if set(_top_targets(s)) & {"delta_t", "t_old"}])
+    ok, why = equal(K.env["delta_t"], Sc(tnext - tcur))
+    obs.append(ob("CPFORM", "next segment length is (next breakpoint) - (current breakpoint)", f, after[0] if after else lp, ok,
+                  f"delta_t = {K.env['delta_t']}" + ("" if ok else f"; {why}"), construct="loop delta_t = t_cur - t_old"))
+    K = Kernel(bindings={}, conds={}, maps={})
+    K.env.update({"t_cur": Sc(tcur)})
+    K.run([s for s in pre if set(_top_targets(s)) & {"t_old", "delta_t"}])
+    ok = "t_old" in K.env and "delta_t" in K.env and equal(K.env["t_old"], Sc(0))[0] and equal(K.env["delta_t"], Sc(tcur))[0]
+    obs.append(ob("CPFORM", "the path starts at t = 0 and the first segment ends at the first breakpoint", f, pre[-1], ok,
+                  f"t_old = {K.env.get('t_old')}, delta_t = {K.env.get('delta_t')}", construct="init t_old = 0, delta_t = t_cur"))
+    okh = len(trys) == 1 and any(isinstance(x, ast.Assign) and src(x.targets[0]) == "t_cur" and src(x.value) in ("np.inf", "float('inf')", "math.inf")
+                                 for h in trys[0].handlers for x in h.body) and \
+        any(isinstance(x, ast.Assign) and src(x.targets[0]) == "t_cur" and isinstance(x.value, ast.Subscript) and src(x.value.value) == "t"
+            for x in trys[0].body)
+    obs.append(ob("CPFORM", "after the last breakpoint the segment is unbounded (t_cur = inf)", f, trys[0] if trys else lp, okh,
+                  "next breakpoint read from t; past the end of the list t_cur = inf" if okh else "the end-of-list case does not set t_cur to infinity",
+                  construct="try: t_cur = t[ibp] except IndexError: t_cur = inf"))
+    ctr_defs = [s for s in walk_no_nested(f.node) if isinstance(s, (ast.Assign, ast.AugAssign, ast.AnnAssign)) and "_i" in _top_targets(s)]
+    okc = len(ctr_defs) == 2 and isinstance(ctr_defs[0], ast.Assign) and isinstance(ctr_defs[0].value, ast.Constant) and ctr_defs[0].value.value == 0 \
+        and isinstance(ctr_defs[1], ast.AugAssign) and isinstance(ctr_defs[1].op, ast.Add) and isinstance(ctr_defs[1].value, ast.Constant) \
+        and ctr_defs[1].value.value == 1 and ctr_defs[1] in lp.body and src(lp.test).replace(" ", "") in ("_i<len(sorted_t_idx)", "len(sorted_t_idx)>_i", "_i<nbreak")
+    obs.append(ob("CPFORM", "breakpoints are consumed one per iteration from the first", f, ctr_defs[0] if ctr_defs else lp, okc,
+                  f"counter definitions {[short(x) for x in ctr_defs]}, guard `{short(lp.test)}`", construct="_i = 0; while _i < len(list): ... _i += 1"))
+    inf_set = [s for s in pre if isinstance(s, ast.Assign) and isinstance(s.targets[0], ast.Subscript) and src(s.targets[0].value) == "t"
+               and src(s.value) in ("np.inf", "float('inf')") and src(s.targets[0].slice).replace(" ", "") in ("grad==0", "~mask")]
+    obs.append(ob("CPFORM", "variables with zero gradient never reach a bound (t = inf)", f, inf_set[0] if inf_set else pre[0], bool(inf_set),
+                  short(inf_set[0]) if inf_set else "no statement t[grad == 0] = inf", construct="t[grad == 0] = np.inf"))
     # breakpoint times and direction
     K2 = Kernel(bindings={}, conds={}, maps={})
     dsrc = [s for s in pre if _top_targets(s) == ["d"]]
@@ -187,4 +227,219 @@ def rule_ratioform(ctx: Ctx) -> List[Ob]:
                                   f, w, ok, f"{short(e, 60)} = {v.e}" + ("" if ok else f"; reference {ref[lab]}; {why}"),
                                   construct=f"{f.name}: ratio[{dirn}{'>' if lab == 'pos' else '<'}0] {short(e, 50)}"))
         need(n == 2, f"RATIOFORM: expected one bound-ratio np.where in {q}, found {n // 2}")
+    return obs
+
+
+# ------------------------------------------------------------------ matrix expressions (C10)
+def _mx(e: ast.expr, env: Dict[str, tuple]):
+    """canonical form of a small matrix expression"""
+    k = src(e)
+    if k in env:
+        return env[k]
+    if isinstance(e, ast.Attribute) and e.attr == "T":
+        return _T(_mx(e.value, env))
+    if isinstance(e, (ast.Name, ast.Attribute)):
+        return ("sym", k)
+    if isinstance(e, ast.BinOp) and isinstance(e.op, ast.MatMult):
+        return ("mm", _mx(e.left, env), _mx(e.right, env))
+    if isinstance(e, ast.BinOp) and isinstance(e.op, ast.Mult):
+        a, b = _mx(e.left, env), _mx(e.right, env)
+        return ("sc",) + tuple(sorted([a, b], key=repr))
+    if isinstance(e, ast.UnaryOp) and isinstance(e.op, ast.USub):
+        return ("neg", _mx(e.operand, env))
+    if isinstance(e, ast.Call):
+        d = dotted(e.func) or ""
+        if isinstance(e.func, ast.Attribute) and e.func.attr == "dot" and len(e.args) == 1 and not d.startswith("np."):
+            return ("mm", _mx(e.func.value, env), _mx(e.args[0], env))
+        if d == "np.transpose" and len(e.args) == 1:
+            return _T(_mx(e.args[0], env))
+        if d == "np.diff" and e.args:
+            ax = kw(e, "axis") or (e.args[2] if len(e.args) > 2 else None)
+            inner = e.args[0]
+            while isinstance(inner, ast.Call) and dotted(inner.func) in ("np.array", "np.asarray", "np.vstack", "np.stack") and inner.args:
+                inner = inner.args[0]
+            return ("diff", src(inner), src(ax) if ax is not None else "-1")
+        if d == "np.tril" and e.args:
+            kk = e.args[1] if len(e.args) > 1 else kw(e, "k")
+            return ("tril", _mx(e.args[0], env), src(kk) if kk is not None else "0")
+        if d == "np.diag" and len(e.args) == 1:
+            inner = _mx(e.args[0], env)
+            if inner[0] == "diagv":
+                return ("diagm", inner[1])
+            return ("diagv", inner)
+        if d in ("np.hstack", "np.vstack") and len(e.args) == 1 and isinstance(e.args[0], (ast.List, ast.Tuple)):
+            return (d[3:],) + tuple(_mx(x, env) for x in e.args[0].elts)
+        if d.split(".")[-1] == "form_invMfactors":
+            return ("form_invMfactors",) + tuple(_mx(a, env) for a in e.args)
+    return ("opaque", k)
+
+
+def _T(m):
+    if m[0] == "T":
+        return m[1]
+    if m[0] == "mm":
+        return ("mm", _T(m[2]), _T(m[1]))
+    if m[0] in ("sc",):
+        return ("sc",) + tuple(sorted([x if x[0] == "sym" and "theta" in x[1] else _T(x) for x in m[1:]], key=repr))
+    return ("T", m)
+
+
+@rule("BFGSFORM", min_instances=7)
+def rule_bfgsform(ctx: Ctx) -> List[Ob]:
+    """the compact L-BFGS matrices are assembled from the stored histories as in Byrd-Nocedal-Schnabel:
+    theta = y.y / s.y of the NEWEST pair (s = X[-1]-X[-2], y = G[-1]-G[-2]); S = diff(X)^T, Y = diff(G)^T;
+    L = strict lower triangle of S^T Y, D = its diagonal; W = [Y, theta S]; the middle-matrix factors are
+    built from (theta, S^T S, L, D) in that order"""
+    f = ctx.repo.func("bfgsmats.update_lbfgs_matrices")
+    obs: List[Ob] = []
+    gate = [s for s in f.node.body if isinstance(s, ast.If) and "is_force_update" in src(s.test)]
+    need(len(gate) == 1, "BFGSFORM: acceptance gate of update_lbfgs_matrices not found")
+    body = gate[0].body
+    # theta through the scalar/vector kernel
+    K = Kernel(bindings={"G[-1]": Vec({"g1": 1}), "G[-2]": Vec({"g0": 1}), "X[-1]": Vec({"x1": 1}), "X[-2]": Vec({"x0": 1})},
+               conds={}, maps={}, ignore_stores={"mats"})
+    th = None
+    for s in body:
+        tg = _top_targets(s)
+        if tg == ["mats.theta"]:
+            th = K.ev(s.value)
+            break
+        if isinstance(s, (ast.Assign, ast.AnnAssign)) and len(tg) == 1 and "." not in tg[0]:
+            try:
+                K.stmt(s)
+            except AnalysisError:
+                pass
+    need(th is not None, "BFGSFORM: assignment of mats.theta not found")
+    yv = Vec({"g1": 1, "g0": -1})
+    sv = Vec({"x1": 1, "x0": -1})
+    ref = Sc(K.dot(yv, yv).e / K.dot(sv, yv).e)
+    ok, why = equal(th, ref)
+    obs.append(ob("BFGSFORM", "theta = y.y / s.y of the newest pair", f, body[0], ok,
+                  f"theta = {th.e}" + ("" if ok else f"; reference {ref.e}"), construct="mats.theta = yTy / sTy (newest pair)"))
+    # matrices
+    env: Dict[str, tuple] = {}
+    got: Dict[str, tuple] = {}
+    for s in body:
+        if isinstance(s, (ast.Assign, ast.AnnAssign)) and getattr(s, "value", None) is not None:
+            t = s.targets[0] if isinstance(s, ast.Assign) else s.target
+            k = src(t)
+            if k in ("mats.theta",):
+                env[k] = ("sym", "theta")
+                continue
+            if k.startswith("mats.") or isinstance(t, ast.Name):
+                v = _mx(s.value, env)
+                env[k] = v
+                got.setdefault(k, v) if k != "mats.L" else got.__setitem__(k, v)
+    dX, dG = ("diff", "X", "0"), ("diff", "G", "0")
+    S, Y = ("T", dX), ("T", dG)
+    STY = ("mm", dX, Y)           # S^T Y with S^T = dX
+    refs = {"mats.S": S, "mats.Y": Y, "mats.L": ("tril", STY, "-1"), "mats.D": ("diagm", STY),
+            "mats.W": ("hstack", Y, ("sc",) + tuple(sorted([("sym", "theta"), S], key=repr))),
+            "mats.invMfactors": ("form_invMfactors", ("sym", "theta"), ("mm", dX, S), ("tril", STY, "-1"), ("diagm", STY))}
+    for k, r in refs.items():
+        v = got.get(k)
+        okk = v == r
+        obs.append(ob("BFGSFORM", f"{k} is assembled as in the compact representation", f, body[0], okk,
+                      f"{k} = {v}" + ("" if okk else f"; reference {r}"), construct=f"{k} assembly"))
+    return obs
+
+
+@rule("FILTERWALK", min_instances=2)
+def rule_filterwalk(ctx: Ctx) -> List[Ob]:
+    """the curvature filter visits every stored point older than the newest one, from the newest to
+    the oldest: with L = len(X) the loop runs over i in range(L - 1) and examines index L - 2 - i"""
+    f = ctx.repo.func("bfgsmats.make_X_and_G_respect_strong_wolfe")
+    obs: List[Ob] = []
+    Xp = f.params[0]
+    L, i = sp.Symbol("L", integer=True), sp.Symbol("i", integer=True)
+    loops = [s for s in f.node.body if isinstance(s, ast.For)]
+    need(len(loops) == 1, "FILTERWALK: loop not found")
+    lp = loops[0]
+    K = Kernel(bindings={f"len({Xp})": Sc(L)}, conds={}, maps={})
+    K.run([s for s in f.node.body[: f.node.body.index(lp)] if isinstance(s, (ast.Assign, ast.AnnAssign)) and
+           not isinstance((s.targets[0] if isinstance(s, ast.Assign) else s.target), ast.Tuple)
+           and not isinstance(getattr(s, "value", None), ast.Tuple)])
+    rng = lp.iter
+    okr = isinstance(rng, ast.Call) and dotted(rng.func) == "range" and len(rng.args) == 1 and isinstance(lp.target, ast.Name)
+    n_it = K.ev(rng.args[0]) if okr else None
+    ok = okr and equal(n_it, Sc(L - 1))[0]
+    obs.append(ob("FILTERWALK", "one visit per stored point older than the newest", f, lp, bool(ok),
+                  f"range({n_it.e if n_it is not None else '?'}) with L = len({Xp})", construct=f"for {short(lp.target)} in {short(rng)}"))
+    if okr:
+        K.env[lp.target.id] = Sc(i)
+        idx = None
+        for s in lp.body:
+            if isinstance(s, (ast.Assign, ast.AnnAssign)) and isinstance((s.targets[0] if isinstance(s, ast.Assign) else s.target), ast.Name):
+                K.stmt(s)
+        # the index used in X[k]
+        used = {src(x.slice) for x in ast.walk(lp) if isinstance(x, ast.Subscript) and src(x.value) == Xp}
+        okk = len(used) == 1
+        if okk:
+            e = ast.parse(list(used)[0], mode="eval").body
+            v = K.ev(e)
+            okk = equal(v, Sc(L - 2 - i))[0]
+        obs.append(ob("FILTERWALK", "points are visited from the second newest down to the oldest", f, lp, bool(okk),
+                      f"index expression(s) {sorted(used)} = {v.e if len(used) == 1 else '?'} (reference L - 2 - i)",
+                      construct=f"{Xp}[k] with k = L - 2 - i"))
+    return obs
+
+
+@rule("STEPINIT", min_instances=5)
+def rule_stepinit(ctx: Ctx) -> List[Ob]:
+    """line-search set-up of Algorithm 778 (with the port's documented first-iteration cap): initial
+    step min(1/||d||, stpmax) on the first iteration of an unboxed problem and 1 otherwise; initial
+    slope g0.d; maximum step 1 on the first iteration, else min(user cap, smallest finite bound
+    ratio); the search is a failure unless dcsrch ends with CONVERGENCE or WARNING and the step is a
+    finite non-zero number"""
+    f = ctx.repo.func("linesearch.line_search")
+    obs: List[Ob] = []
+    smax = sp.Symbol("stpmax", real=True)
+    init_if = [s for s in f.node.body if isinstance(s, ast.If) and any(
+        isinstance(x, ast.Assign) and src(x.targets[0]) == "steplength_0" for x in s.body)]
+    need(len(init_if) == 1, "STEPINIT: initial step selection not found")
+    t = init_if[0].test
+    okc = src(t).replace("(", "").replace(")", "") in ("above_iter == 0 and not is_boxed", "not is_boxed and above_iter == 0")
+    obs.append(ob("STEPINIT", "short first step only on iteration 0 of a problem with an infinite bound", f, init_if[0], okc,
+                  f"condition `{short(t)}`", construct="if above_iter == 0 and not is_boxed"))
+    for outcome, ref in ((True, None), (False, Sc(1))):
+        K = Kernel(bindings={"d": Vec({"d": 1}), "g0": Vec({"g0": 1})}, conds={src(t): outcome}, maps={})
+        K.env["max_steplength"] = Sc(smax)
+        K.run([init_if[0]])
+        v = K.env.get("steplength_0")
+        if outcome:
+            a, b = sorted([sp.expand(1 / sp.sqrt(sp.Symbol("<d|d>"))), sp.expand(smax)], key=sp.default_sort_key)
+            ref = Sc(sp.Function("min")(a, b))
+        ok = v is not None and equal(v, ref)[0]
+        obs.append(ob("STEPINIT", f"initial step ({'first unboxed iteration' if outcome else 'otherwise'})", f, init_if[0], ok,
+                      f"steplength_0 = {v.e if v is not None else '?'}" + ("" if ok else f"; reference {ref.e}"),
+                      construct=f"steplength_0 [{outcome}]"))
+    K = Kernel(bindings={"d": Vec({"d": 1}), "g0": Vec({"g0": 1})}, conds={}, maps={})
+    sl = [s for s in f.node.body if set(_top_targets(s)) & {"dphi0", "f_m1", "dphi_m1"}]
+    K.env["f0"] = Sc(sp.Symbol("f0"))
+    K.run(sl)
+    ok = all(k in K.env for k in ("dphi0", "f_m1", "dphi_m1")) and equal(K.env["dphi0"], Sc(sp.Symbol("<d|g0>")))[0] and \
+        equal(K.env["f_m1"], Sc(sp.Symbol("f0")))[0] and equal(K.env["dphi_m1"], Sc(sp.Symbol("<d|g0>")))[0]
+    obs.append(ob("STEPINIT", "dcsrch is started with f(x0) and the slope g0.d", f, sl[0] if sl else f.node, ok,
+                  f"dphi0 = {K.env.get('dphi0')}, f_m1 = {K.env.get('f_m1')}, dphi_m1 = {K.env.get('dphi_m1')}",
+                  construct="dphi0 = g0.dot(d); f_m1 = f0; dphi_m1 = dphi0"))
+    # failure classification after the loop
+    tests = [s for s in f.node.body if isinstance(s, ast.If) and any(isinstance(x, ast.Return) for x in ast.walk(s))]
+    srcs = [src(s.test).replace(" ", "") for s in tests]
+    okt = any("task[:4]!=b'CONV'andtask[:4]!=b'WARN'" == x for x in srcs)
+    obs.append(ob("STEPINIT", "only CONVERGENCE / WARNING endings can yield a step", f, tests[-1] if tests else f.node, okt,
+                  f"return-None tests: {[short(s.test, 50) for s in tests]}", construct="if task is neither CONV nor WARN: return None"))
+    inner = [s for t0 in tests for s in ast.walk(t0) if isinstance(s, ast.If) and "isfinite" in src(s.test)]
+    okf = bool(inner) and src(inner[0].test).replace(" ", "") in ("notnp.isfinite(steplength)orsteplength==0.0", "steplength==0.0ornotnp.isfinite(steplength)")
+    obs.append(ob("STEPINIT", "a non-finite or zero step is a failure", f, inner[0] if inner else f.node, okf,
+                  f"`{short(inner[0].test) if inner else 'no test'}`", construct="if not isfinite(step) or step == 0: return None"))
+    g = ctx.repo.func("linesearch.max_allowed_steplength")
+    first = [s for s in g.node.body if isinstance(s, ast.If)]
+    ok1 = bool(first) and src(first[0].test) == "n_iter == 0" and isinstance(first[0].body[0], ast.Return) and \
+        isinstance(first[0].body[0].value, ast.Constant) and first[0].body[0].value.value == 1.0
+    obs.append(ob("STEPINIT", "first-iteration step cap is 1 (documented deviation of the port)", g, first[0] if first else g.node, ok1,
+                  f"{short(first[0], 60) if first else 'missing'}", construct="if n_iter == 0: return 1.0"))
+    rets = [r for r in ast.walk(g.node) if isinstance(r, ast.Return) and isinstance(r.value, ast.Call) and dotted(r.value.func) == "min"]
+    ok2 = len(rets) == 1 and {src(a).replace(" ", "") for a in rets[0].value.args} == {"max_steplength", "np.nanmin(_tmp[np.isfinite(_tmp)])"}
+    obs.append(ob("STEPINIT", "maximum step is min(user cap, smallest finite bound ratio)", g, rets[0] if rets else g.node, ok2,
+                  f"{short(rets[0].value) if rets else 'missing'}", construct="return min(max_steplength, nanmin(finite ratios))"))
     return obs
